@@ -448,6 +448,14 @@ var leavers = []struct {
 	{"libxml", []string{"libxml_use_internal_errors"}, `libxml_use_internal_errors(true);`},
 	{"stream_context_default", []string{"stream_context_set_default"}, `stream_context_set_default(["http" => ["timeout" => 1]]);`},
 	{"umask_chdir", []string{"chdir"}, `chdir("/");`},
+	// builtins that keep something between two calls (a continuation, a "last error", a list of what was declared)
+	{"strtok_rest", []string{"strtok"}, `$tk = strtok("user=alice,token=s3cr3t,role=admin", ",");`},
+	{"strtok_rest_two", []string{"strtok"}, `$tk = strtok("a b c d", " "); $tk = strtok(" ");`},
+	{"error_last", []string{"trigger_error"}, `@trigger_error("left by A", E_USER_WARNING);`},
+	{"declared_things", nil, `class DeclA1 { } class DeclA2 { } interface DeclAI { } function decl_a_fn() { return 1; } define("DECL_A", 1);`},
+	{"included_file", nil, `$inc = include "@INC@/lib_ret.php";`},
+	{"many_objects", nil, `$keep = []; for ($i = 0; $i < 50; $i++) { $keep[] = new stdClass(); }`},
+	{"array_cursor", []string{"next"}, `$cur = [1, 2, 3]; next($cur); next($cur);`},
 }
 
 var probes = []struct {
@@ -484,6 +492,16 @@ var probes = []struct {
 	{"http_response_code", []string{"http_response_code"}, `var_export(http_response_code(), true)`},
 	{"headers_list", []string{"headers_list"}, `json_encode(headers_list())`},
 	{"getcwd", []string{"getcwd"}, `(getcwd() == "/" ? "root" : "elsewhere")`},
+	{"strtok_continue", []string{"strtok"}, `var_export(strtok(","), true) . "|" . var_export(strtok(" "), true)`},
+	{"error_get_last", []string{"error_get_last"}, `json_encode(error_get_last())`},
+	{"declared_classes", []string{"get_declared_classes"}, `count(array_filter(get_declared_classes(), function($c) { return substr($c, 0, 4) == "Decl"; }))`},
+	{"declared_interfaces", []string{"get_declared_interfaces"}, `count(array_filter(get_declared_interfaces(), function($c) { return substr($c, 0, 4) == "Decl"; }))`},
+	{"defined_functions", []string{"get_defined_functions"}, `json_encode(get_defined_functions()["user"])`},
+	{"user_constants", []string{"get_defined_constants"}, `json_encode(get_defined_constants(true)["user"] ?? [])`},
+	{"included_files", []string{"get_included_files"}, `count(get_included_files())`},
+	// (no spl_object_id probe: origami derives the id from the object's address, PHP promises uniqueness only — an
+	// object id is an input of the process like its pid, and the corpus filter excludes programs that print one)
+	{"array_cursor", []string{"current"}, `current([7, 8, 9])`},
 	{"uncaught_in_b", nil, `"before-throw"`},
 }
 
